@@ -110,6 +110,8 @@ class RandomOracle:
                 tok = f"{t}:{self.fresh()}" + (f":{rng.choice(['-'] + CLASSES)}" if t == "exhausted" else "")
                 return Ans("raise", tok, dur=d)
             if rng.random() < p.p_success:
+                if rng.random() < 0.06:
+                    return Ans("value", 0, dur=d)      # the operation returns None (token 0)
                 return Ans("value", self.fresh(), dur=d)
             if info.get("result_classifier") and rng.random() < 0.5:
                 # sometimes the operation returns the very object it returned before (a poller handing back one
@@ -131,7 +133,10 @@ class RandomOracle:
             return Ans("raise", f"ordinary:{self.fresh()}:{self._klass()}", dur=d)
         if kind in ("classify", "resultClassify"):
             d = self._dur(info, False)
-            if kind == "resultClassify" and rng.random() > p.p_result_fail:
+            if kind == "resultClassify" and (rng.random() > p.p_result_fail
+                                             or str(info.get("req", "")).endswith(" 0")):
+                # None (token 0) is never classified as a failure here: `last_result=None` could not be told
+                # from "no result" in the library's own API
                 return Ans("noFailure", dur=d)
             ra = None
             if rng.random() < p.p_retry_after:
